@@ -41,7 +41,8 @@ TCancelE ==
 TQLenS == IsEvent("QLenS") /\ pQ = "none" /\ obs.pc = "idle" /\ pQ' = "started" /\ UNCHANGED <<vars, pCancel, pRun, rreg>>
 LinQ1  == pQ = "started" /\ ObsReadCnt /\ pQ' = "cnt" /\ UNCHANGED <<l, pCancel, pRun, rreg>>
 LinQ2  == pQ = "cnt" /\ ObsReadSem /\ pQ' = "applied" /\ UNCHANGED <<l, pCancel, pRun, rreg>>
-TQLenE == IsEvent("QLenE") /\ pQ = "applied" /\ obs.ql = Trace[l].ql /\ pQ' = "none" /\ UNCHANGED <<vars, pCancel, pRun, rreg>>
+(* the difference of the two reads; a tree that clamps a negative difference to 0 is accepted as well *)
+TQLenE == IsEvent("QLenE") /\ pQ = "applied" /\ (obs.ql = Trace[l].ql \/ (obs.ql < 0 /\ Trace[l].ql = 0)) /\ pQ' = "none" /\ UNCHANGED <<vars, pCancel, pRun, rreg>>
 
 TRunS  == IsEvent("RunS") /\ pRun = "none" /\ pRun' = "started" /\ UNCHANGED <<vars, pCancel, pQ, rreg>>
 LinRun == pRun = "started" /\ pRun' = "applied" /\ rreg' = sem /\ UNCHANGED <<vars, l, pCancel, pQ>>
